@@ -263,6 +263,11 @@ func c13Stack(r *eng.Run) {
 	var gotPings [][]byte
 	curCompressed := false
 	rd := &wsutil.Reader{Source: src, State: rst, Extensions: []wsutil.RecvExtension{&rms}}
+	if len(wire.Out)%3 == 0 {
+		// The state attached through the package's function adapter.
+		rd.Extensions = []wsutil.RecvExtension{wsutil.RecvExtensionFunc(rms.UnsetBits)}
+		r.Probe("message_state_through_the_function_adapter")
+	}
 	if r.T.Chance(sim.LCfg, 1, 3) {
 		rd.Source = bufio.NewReaderSize(src, []int{16, 64, 4096}[r.T.Int(sim.LSize, 3)])
 		r.Probe("reader_source_is_bufio_reader")
@@ -421,6 +426,10 @@ func c13Scripted(r *eng.Run) {
 	st := sideState(side) | ws.StateExtended
 	var ms wsflate.MessageState
 	rd := &wsutil.Reader{Source: p, State: st, Extensions: []wsutil.RecvExtension{&ms}}
+	if len(wire)%3 == 0 {
+		rd.Extensions = []wsutil.RecvExtension{wsutil.RecvExtensionFunc(ms.UnsetBits)}
+		r.Probe("message_state_through_the_function_adapter")
+	}
 	// A second receive extension of the application that owns RSV2 (clears
 	// it), chained after or before the message state.
 	other := []int{0, 0, 1, 2}[r.T.Int(sim.LCfg, 4)]
